@@ -363,6 +363,11 @@ func (rb *Buffer) ReadFrom(r io.Reader) (n int64, err error) {
 			if err != nil {
 				return
 			}
+			if rb.w != 0 {
+				// Short read: the segment up to the end of the buffer is not filled yet,
+				// so the next bytes belong there rather than at the start of the buffer.
+				continue
+			}
 			m, err = r.Read(rb.buf[:rb.r])
 			if m < 0 {
 				panic("RingBuffer.ReadFrom: reader returned negative count from Read")
